@@ -533,7 +533,9 @@ class Session:
                             tag, ret, want[0], "maximised" if self.signs[0] else "minimised"), x=list(x))
         return ret, exc
 
-    def sweep(self, gen):
+    def sweep(self, gen, options=None):
+        """options: algorithm options set on the SweepAlgorithm before run() (the sweep inherits the options of
+        GeneticAlgorithm, e.g. max_population_size: whatever they are, a sweep evaluates ALL the generator's designs)"""
         k0 = len(self.problem.individuals)
         n0, f0, t0 = len(self.calls), len(self.problem.failed), len(self.tape)
         produced = []
@@ -549,6 +551,11 @@ class Session:
             return vs
         gen.generate = generate
         alg = self.lab.SweepAlgorithm(self.problem, gen)
+        for name, value in (options or {}).items():
+            try:
+                alg.options[name] = value
+            except Exception:
+                pass                         # an option this version does not declare
         _, exc = self.run_guarded(alg.run)
         if not produced and exc is not None and len(self.calls) == n0:
             return None                      # the generator itself raised: not our subject, nothing happened
@@ -573,7 +580,9 @@ class Session:
                 seen.add(id(c[0]))
                 firsts.append(c[1])
         if exc is None and not (len(firsts) == len(vectors) and all(same_vec(a, b) for a, b in zip(firsts, vectors))):
-            self.fail("C05", "sweep: the objective was not invoked for exactly the generator's designs in order",
+            self.fail("C05", "sweep: the objective was not invoked for exactly the generator's designs in order (%d designs generated, "
+                      "%d evaluated)" % (len(vectors), len(firsts)), algorithm_options=dict(options or {}), number_of_designs=len(vectors),
+                      never_evaluated=[[k, v] for k, v in enumerate(vectors) if not any(same_vec(v, a) for a in firsts)][:5],
                       generated=vectors, evaluated=firsts)
         before = {self.id_of(i): (v, [], [], "EMPTY", False, 7) for i, v in zip(new, vectors)}
         self.oracle_jobs("sweep", set(before), before, n0, f0, t0, exc)
@@ -1287,6 +1296,44 @@ def corpus(lab):
     return out
 
 
+def boundary_sweeps(lab, rng, thorough):
+    """Red-team round 4 (rule 7): sweep sizes straddling the multiples of the inherited option max_population_size (set small:
+    3, 5, 1, 2; left at its default 100: 99..102 and 199..202 designs, 299..302 in the thorough tier) and of other plausible
+    block sizes (powers of two), clean and with transient failures; designs with repeats.  The model's sweep does not know
+    the option: every design of the generator is evaluated, in order."""
+    out = []
+    base = dict(dim=2, crit=["minimize", "maximize"], ncons=0, mode="plain", coef=[[0.123456789, 1.0, -0.7, 1.0 / 7.0]] * 5,
+                thr=[1.0, 0.5], extra=0, pstyle=0, schedule=[], private=True)
+    plans = []
+    for mps in (1, 2, 3, 5):
+        for k in (1, 2, 3):
+            for d in (-1, 0, 1, 2):
+                n = k * mps + d
+                if n >= 1:
+                    plans.append((mps, n))
+    for n in (99, 100, 101, 102, 199, 200, 201, 202) + ((299, 300, 301, 302, 63, 64, 65, 127, 128, 129) if thorough else (33, 65)):
+        plans.append((None, n))
+    for n in (7, 8, 9, 16, 17):
+        plans.append((8, n))
+    seen = set()
+    for mps, n in plans:
+        if (mps, n) in seen:
+            continue
+        seen.add((mps, n))
+        faulty = mps is not None and rng.random() < 0.25
+        sched = [rng.choice(["ok", "ok", "ok", "T", "R"]) for _ in range(n)] if faulty else []
+        crit = rng.choice([["minimize"], ["minimize", "maximize"], ["maximize"]])
+        s = Session(lab, dict(base, crit=crit, schedule=sched, private=False))
+        pool = [rand_vec(rng, 2) for _ in range(3)]
+        vectors = [rand_vec(rng, 2, pool) for _ in range(n)]
+        g = lab.ops.CustomGenerator(s.problem.parameters)
+        g.init(vectors)
+        s.sweep(g, options=None if mps is None else {"max_population_size": mps})
+        s.boundary_plan = {"max_population_size": mps if mps is not None else "default", "designs": n, "transient_failures": faulty}
+        out.append(s.freeze())
+    return out
+
+
 def run(ctx):
     lab = Lab(ctx)
     rng = ctx.rng
@@ -1295,6 +1342,12 @@ def run(ctx):
     for s in corpus(lab):
         collect(ctx, s, "C05", cases, expected, meta, hist)
         ctx.count(("corpus", len(cases)))
+    hist["sweep_sizes_by_max_population_size"] = {}
+    for s in boundary_sweeps(lab, rng, ctx.thorough):
+        collect(ctx, s, "C05", cases, expected, meta, hist)
+        bp = s.boundary_plan
+        hist["sweep_sizes_by_max_population_size"].setdefault(str(bp["max_population_size"]), []).append(bp["designs"])
+        ctx.count(("sweep_boundary", str(bp["max_population_size"]), bp["designs"], tuple(c[2] for c in s.calls)), nontrivial=bp["designs"] > 1)
     n = ctx.pick(1500, 20000)
     for k in range(n):
         fr = 0.0 if k % 4 else 0.12                       # C05 is mostly about clean runs; C06 owns the fault patterns
